@@ -22,7 +22,7 @@
    reduction over axis 0.  One parameter element ("synapse") is therefore described by its list of receptive pairs
    (presynaptic unit, postsynaptic unit); the monitors' tensors are flat lists over (batch, unit). *)
 From Coq Require Import List ZArith Bool.
-From Inferno Require Import Base.Num Gen.Stdkernels.
+From Inferno Require Import Base.Num.
 Import ListNotations.
 
 Fixpoint map2 {A B C : Type} (f : A -> B -> C) (la : list A) (lb : list B) : list C :=
